@@ -89,6 +89,7 @@ type CallEv struct {
 	PanicV  interface{}
 	CtxSeen int // 0 no ctx param, 1 the directive's context, 2 another context
 	CtxDone bool
+	Ctx     context.Context // the context the function was handed (kept so that its state can be read at quiescence)
 }
 
 type ArgEv struct {
@@ -335,6 +336,7 @@ func (x *Exec) Call(ctx context.Context, fn int, args ...uint64) *Ret {
 			ev.CtxSeen = 2
 		}
 		ev.CtxDone = ctx.Err() != nil
+		ev.Ctx = ctx
 	}
 	ev.T0 = stamp()
 	cur := x.Inflight.Add(1)
